@@ -36,11 +36,13 @@ def load_baseline():
 
 
 def matches_known(k, pid, unit, oid, path):
-    if k.get('property') != pid:
+    if pid not in k.get('properties', [k.get('property')]):
         return False
     if k.get('unit') and k['unit'] != unit:
         return False
     if k.get('obligation') and k['obligation'] != oid.split(':', 1)[-1] and k['obligation'] != oid:
+        return False
+    if k.get('path_contains') and k['path_contains'] not in (path or ''):
         return False
     return True
 
